@@ -293,6 +293,29 @@ def save_bytes(sensors, workdir, fmt, name="enc"):
     return data
 
 
+@contextlib.contextmanager
+def spelled(path, how):
+    """`path` named the way a user may name it: 0 absolute, 1 relative to the working directory (which is
+    changed for the duration), 2 through a symbolic link to its directory."""
+    cwd = os.getcwd()
+    named = path
+    try:
+        if how == 1:
+            os.chdir(os.path.dirname(path))
+            named = os.path.basename(path)
+        elif how == 2:
+            link = os.path.dirname(path).rstrip("/") + "-link"
+            try:
+                if not os.path.islink(link):
+                    os.symlink(os.path.dirname(path), link)
+                named = os.path.join(link, os.path.basename(path))
+            except OSError:
+                named = path
+        yield named
+    finally:
+        os.chdir(cwd)
+
+
 _SPELLING = [0]
 
 
